@@ -62,3 +62,26 @@ exists (l :: new); split=> //=.
   by rewrite eX (deflateE wX st sp) addrC subrK.
 Qed.
 End PlsFit.
+
+(* the same for the responses: every latent variable deflates Y by b_k t_k q_k' with its own stored inner coefficient,
+   score and y-loading, so  Y = sum_k b_k t_k q_k' + Y_res  for every run that returns (ny = size of the y-loadings) *)
+Section PlsFitY.
+Variable R : rcfType.
+Local Existing Instance RcfOps.
+Local Notation vec := (seq R).
+Local Notation mat := (seq (seq R)).
+Local Open Scope ring_scope.
+Import GRing.Theory.
+
+Lemma ydeflateE n ny (Y : mat) (t q : vec) (b : R) : wf n ny Y -> size t = n -> size q = ny ->
+  mx_of n ny (map (fun rt => map (fun yq => ksub yq.1 (kmul (kmul b rt.2) yq.2)) (zip rt.1 q)) (zip Y t))
+  = mx_of n ny Y - (b *: cv_of n t) *m (cv_of ny q)^T.
+Proof.
+move=> wY st sq; apply/matrixP => i j; rewrite !mxE big_ord1 !mxE.
+have iY : (i < size Y)%N by rewrite (wf_size wY).
+have szr : size (nth [::] Y i) = ny by apply: (wf_row wY).
+rewrite (nth_map ([::], 0)) ?size_zip ?st ?(wf_size wY) ?minnn //.
+rewrite nth_zip ?st ?(wf_size wY) //= (nth_map (0, 0)) ?size_zip ?szr ?sq ?minnn //.
+by rewrite nth_zip ?szr ?sq.
+Qed.
+End PlsFitY.
